@@ -10,7 +10,7 @@ git -C /repo worktree add -q --detach "$WT" HEAD || exit 3
 echo "== demo without the change"
 DD=/tmp/seed_eval_demo_$ID
 rm -rf "$DD"; mkdir -p "$DD"
-(cd "$WT" && sed "s#/tmp/seed2*/wt_[A-Za-z0-9_]*#$WT#g" "$OUT/demo.py" > "$DD/demo.py" && PYTHONPATH="$WT" timeout 900 /venv/bin/python "$DD/demo.py" > "$DD/base.log" 2>&1; echo "exit=$?"; tail -2 "$DD/base.log")
+(cd "$WT" && sed "s#/tmp/seed[0-9]*/wt_[A-Za-z0-9_]*#$WT#g" "$OUT/demo.py" > "$DD/demo.py" && PYTHONPATH="$WT" timeout 900 /venv/bin/python "$DD/demo.py" > "$DD/base.log" 2>&1; echo "exit=$?"; tail -2 "$DD/base.log")
 git -C "$WT" apply "$OUT/patch.diff" || { echo "PATCH DOES NOT APPLY"; git -C /repo worktree remove --force "$WT"; exit 3; }
 echo "== test suite with the change"
 (cd "$WT" && /venv/bin/python -m pytest -q -p no:cacheprovider 2>&1 | tail -1)
